@@ -9,6 +9,24 @@ Extracted (pure `ast`), located by ROLE, not by name or statement position:
   * the *check dispatch* (`_check_requested_component_and_metrics` + its `_check_*_request` helpers): the function
     whose category branches (directly or through helpers of the same module) open an API stream `*_data(...)`
     =>  category -> (table the metrics are validated against, API stream method).
+  * the *per-message path* of the streaming task (`_handle_data_stream` on the pinned tree): the one `async for <msg> in
+    <API receiver>` loop of the module whose body hands the message to a function that `.send(...)`s on channel
+    senders.  Established by a taint analysis of the loop body and of that function (message content = the loop
+    variable and everything assigned / stored from it, in this or an EARLIER iteration — loop-carried state is found
+    by iterating the analysis to a fixpoint):
+      - `messagePath`: the stream iterated is the raw API receiver (no call wraps it, every store into its container is
+        a direct `await <client>.<x>_data(...)`); the fan-out of the received object itself is scheduled exactly once,
+        at the top level of the loop body (not under any branch / conditional expression); an unconditional `await`
+        follows it in the same iteration; and the list of *guards* of the loop body — every `if` / `match` / `while` /
+        `for` / `try`-handler / `continue` / `break` / `return` / `raise`, each with "its condition reads message
+        content" and "it can skip or end the per-message path";
+      - `fanoutBody`: inside the fan-out function one `send` per sender in the nested loops
+        `for (extractor, senders) in <snapshot>: for sender in senders:`, the sample being
+        `Sample(<msg>.timestamp, Quantity(extractor(<msg>)))` (positional or keyword), and its guards as above.
+    Only these structural facts are emitted (no names, no source text), so renames, reorderings of independent
+    statements, closures turned into methods, keyword arguments, … regenerate the same text, while a data-dependent
+    skip (`if msg.timestamp <= last: continue`, a filter on the receiver, `if isnan(value): continue` in the
+    fan-out, …) changes `readsMessage` / `canSkip` and `C20_message_path_unconditional` no longer checks.
 A category dispatch may be written as an `if`/`elif` chain (`==`, `is`, `in (…)`, `or`, either operand order,
 `!=` with the branches swapped), as `match … case ComponentCategory.X [| …]:`, or as a dict literal
 `{ComponentCategory.X: <table>, …}` (local or module level).  Anything that cannot be read this way makes the
@@ -317,6 +335,431 @@ def _dispatches(mod: ast.Module, tables: dict) -> tuple[list[tuple[str, str]], l
     return extraction[0][1], check[0][1]
 
 
+# ---- per-message path of the streaming task ------------------------------------------------------------------
+_CTRL = (ast.Continue, ast.Break, ast.Return, ast.Raise)
+_SAMPLE_FIELDS = ("timestamp", "value")   # field order of the `Sample` dataclass (timeseries/_base_types.py)
+
+
+def _walk_no_defs(node: ast.AST):
+    """`ast.walk` that does not descend into nested function definitions / lambdas."""
+    todo = [node]
+    while todo:
+        n = todo.pop()
+        yield n
+        for c in ast.iter_child_nodes(n):
+            if not isinstance(c, (*FuncDef, ast.Lambda)):
+                todo.append(c)
+
+
+def _dotted(n: ast.expr) -> str | None:
+    if isinstance(n, ast.Name):
+        return n.id
+    if isinstance(n, ast.Attribute):
+        b = _dotted(n.value)
+        return None if b is None else b + "." + n.attr
+    return None
+
+
+def _mentions(n: ast.AST, taint: set[str]) -> bool:
+    for x in ast.walk(n):
+        if isinstance(x, (ast.Name, ast.Attribute)):
+            d = _dotted(x)
+            if d is not None and d in taint:
+                return True
+    return False
+
+
+def _targets(t: ast.expr) -> list[str]:
+    if isinstance(t, (ast.Tuple, ast.List)):
+        return [x for e in t.elts for x in _targets(e)]
+    if isinstance(t, ast.Starred):
+        return _targets(t.value)
+    if isinstance(t, ast.Subscript):
+        return _targets(t.value)          # `d[k] = tainted` taints the container
+    d = _dotted(t)
+    return [d] if d is not None else []
+
+
+def _has_send(fn: ast.AST) -> bool:
+    return any(isinstance(n, ast.Call) and isinstance(n.func, ast.Attribute) and n.func.attr == "send"
+               for n in ast.walk(fn))
+
+
+class _PathAnalysis:
+    """Guards and taint of a statement list executed once per message."""
+
+    def __init__(self, taint: set[str], skip_stmts: tuple[ast.stmt, ...] = ()):
+        self.taint = set(taint)
+        self.skip = skip_stmts          # statements whose effects are accounted for elsewhere (the scheduling)
+        self.guards: list[tuple[bool, bool]] = []   # (readsMessage, canSkip), in source order
+        self.record = True
+
+    # -- taint ---------------------------------------------------------------------------------------------------
+    def _assign(self, targets: list[ast.expr], value: ast.AST | None) -> None:
+        if value is not None and _mentions(value, self.taint):
+            for t in targets:
+                self.taint.update(_targets(t))
+
+    def _effects(self, st: ast.stmt) -> None:
+        for n in _walk_no_defs(st):
+            if isinstance(n, ast.NamedExpr):
+                self._assign([n.target], n.value)
+            elif isinstance(n, ast.Call) and isinstance(n.func, ast.Attribute):
+                # `container.add(<message content>)` / `self.seen.append(...)`: the receiver now holds message content
+                if any(_mentions(a, self.taint) for a in list(n.args) + [k.value for k in n.keywords]):
+                    d = _dotted(n.func.value)
+                    if d is not None and isinstance(st, ast.Expr):
+                        self.taint.add(d)
+        if isinstance(st, ast.Assign):
+            self._assign(st.targets, st.value)
+        elif isinstance(st, ast.AnnAssign):
+            self._assign([st.target], st.value)
+        elif isinstance(st, ast.AugAssign):
+            self._assign([st.target], st.value)
+
+    # -- guards --------------------------------------------------------------------------------------------------
+    def _guard(self, cond: ast.AST | None, bodies: list[list[ast.stmt]], contains: ast.stmt | None) -> None:
+        reads = cond is not None and _mentions(cond, self.taint)
+        can_skip = any(isinstance(n, _CTRL) or (contains is not None and n is contains)
+                       for b in bodies for st in b for n in _walk_no_defs(st))
+        if self.record:
+            self.guards.append((reads, can_skip))
+
+    def block(self, stmts: list[ast.stmt], sched: ast.stmt | None = None) -> None:
+        for st in stmts:
+            if st in self.skip:
+                continue
+            if isinstance(st, FuncDef) or isinstance(st, (ast.Pass, ast.Global, ast.Nonlocal, ast.Import, ast.ImportFrom)):
+                continue
+            if isinstance(st, _CTRL):
+                if self.record:
+                    self.guards.append((isinstance(st, (ast.Return, ast.Raise)) and _mentions(st, self.taint), True))
+                continue
+            if isinstance(st, ast.If):
+                self._guard(st.test, [st.body, st.orelse], sched)
+                self.block(st.body, sched); self.block(st.orelse, sched)
+            elif isinstance(st, ast.While):
+                self._guard(st.test, [st.body, st.orelse], sched)
+                self.block(st.body, sched); self.block(st.orelse, sched)
+            elif isinstance(st, (ast.For, ast.AsyncFor)):
+                self._guard(st.iter, [st.body, st.orelse], sched)
+                self._assign([st.target], st.iter)
+                self.block(st.body, sched); self.block(st.orelse, sched)
+            elif isinstance(st, ast.Match):
+                self._guard(ast.Tuple(elts=[st.subject] + [c.guard for c in st.cases if c.guard is not None],
+                                      ctx=ast.Load()), [c.body for c in st.cases], sched)
+                for c in st.cases:
+                    if _mentions(st.subject, self.taint):
+                        for n in ast.walk(c.pattern):
+                            if isinstance(n, (ast.MatchAs, ast.MatchStar)) and n.name:
+                                self.taint.add(n.name)
+                    self.block(c.body, sched)
+            elif isinstance(st, (ast.Try, getattr(ast, "TryStar", ast.Try))):
+                self.block(st.body, sched)
+                if st.handlers or st.orelse:
+                    self._guard(None, [h.body for h in st.handlers] + [st.orelse], sched)
+                for h in st.handlers:
+                    self.block(h.body, sched)
+                self.block(st.orelse, sched); self.block(st.finalbody, sched)
+            elif isinstance(st, (ast.With, ast.AsyncWith)):
+                for it in st.items:
+                    if it.optional_vars is not None:
+                        self._assign([it.optional_vars], it.context_expr)
+                self.block(st.body, sched)
+            elif isinstance(st, (ast.Assign, ast.AnnAssign, ast.AugAssign, ast.Expr, ast.Assert, ast.Delete)):
+                if isinstance(st, ast.Assert):
+                    self._guard(st.test, [[ast.Raise()]], None)
+                # conditional expressions / short-circuit operators are branches as well
+                for n in _walk_no_defs(st):
+                    if isinstance(n, ast.IfExp):
+                        self._guard(n.test, [], None)
+                    elif isinstance(n, (ast.ListComp, ast.SetComp, ast.DictComp, ast.GeneratorExp)):
+                        for gen in n.generators:
+                            for cond in gen.ifs:
+                                self._guard(cond, [], None)
+                self._effects(st)
+            else:
+                raise Unsupported(f"per-message path: statement {type(st).__name__} cannot be read")
+
+    def fixpoint(self, stmts: list[ast.stmt], sched: ast.stmt | None = None) -> None:
+        """Iterate so that content stored in one iteration is seen by the guards of the next one."""
+        self.record = False
+        for _ in range(8):
+            before = set(self.taint)
+            self.block(stmts, sched)
+            if self.taint == before:
+                break
+        else:
+            raise Unsupported("per-message path: taint analysis does not stabilise")
+        self.record = True
+        self.guards = []
+        self.block(stmts, sched)
+
+
+def _local_defs(fn: ast.AST) -> dict[str, ast.AST]:
+    return {n.name: n for n in ast.walk(fn) if isinstance(n, FuncDef) and n is not fn}
+
+
+def _resolve_callee(call: ast.Call, local: dict[str, ast.AST], funcs: dict[str, ast.AST]) -> tuple[ast.AST, int] | None:
+    """(function definition, number of leading parameters bound implicitly) of a call to a function of this module."""
+    f = call.func
+    if isinstance(f, ast.Name):
+        if f.id in local:
+            return local[f.id], 0
+        if f.id in funcs:
+            return funcs[f.id], 0
+    if isinstance(f, ast.Attribute) and isinstance(f.value, ast.Name) and f.value.id in ("self", "cls") and f.attr in funcs:
+        return funcs[f.attr], 1
+    return None
+
+
+def _bind(call: ast.Call, fn: ast.AST, skip: int) -> dict[str, ast.expr]:
+    a = fn.args  # type: ignore[attr-defined]
+    params = [x.arg for x in a.posonlyargs + a.args][skip:]
+    if any(isinstance(x, ast.Starred) for x in call.args) or any(k.arg is None for k in call.keywords) or a.vararg or a.kwarg:
+        raise Unsupported("per-message path: star arguments in the call of the fan-out function")
+    if len(call.args) > len(params):
+        raise Unsupported("per-message path: too many arguments for the fan-out function")
+    out = dict(zip(params, call.args))
+    for k in call.keywords:
+        out[k.arg] = k.value  # type: ignore[index]
+    return out
+
+
+def _single_assignments(stmts: list[ast.stmt]) -> dict[str, ast.expr]:
+    """Local names assigned exactly once (anywhere below `stmts`, nested defs excluded) -> the assigned expression."""
+    seen: dict[str, list[ast.expr | None]] = {}
+    for st in stmts:
+        for n in _walk_no_defs(st):
+            if isinstance(n, ast.Assign) and len(n.targets) == 1 and isinstance(n.targets[0], ast.Name):
+                seen.setdefault(n.targets[0].id, []).append(n.value)
+            elif isinstance(n, ast.AnnAssign) and isinstance(n.target, ast.Name) and n.value is not None:
+                seen.setdefault(n.target.id, []).append(n.value)
+            elif isinstance(n, (ast.Assign, ast.AugAssign, ast.AnnAssign, ast.For, ast.AsyncFor, ast.NamedExpr)):
+                tg = n.targets if isinstance(n, ast.Assign) else [n.target]
+                for t in tg:
+                    for name in _targets(t):
+                        seen.setdefault(name, []).append(None)
+    return {k: v[0] for k, v in seen.items() if len(v) == 1 and v[0] is not None}
+
+
+def _sample_expr(e: ast.expr | None, msg: str, extractor: str) -> str:
+    if e is None:
+        return ".other"
+    if isinstance(e, ast.Attribute) and isinstance(e.value, ast.Name) and e.value.id == msg:
+        return f".msgAttr {_lean_str(e.attr)}"
+    if (isinstance(e, ast.Call) and isinstance(e.func, ast.Name) and e.func.id == "Quantity" and len(e.args) == 1
+            and not e.keywords):
+        inner = e.args[0]
+        if (isinstance(inner, ast.Call) and isinstance(inner.func, ast.Name) and inner.func.id == extractor
+                and len(inner.args) == 1 and not inner.keywords and isinstance(inner.args[0], ast.Name)
+                and inner.args[0].id == msg):
+            return ".quantityOfExtractor"
+    return ".other"
+
+
+def _fanout_body(fn: ast.AST, msg: str, tainted_params: set[str]) -> dict:
+    """Structure of the fan-out function (`process_msg`)."""
+    body = _strip_doc(fn.body)  # type: ignore[attr-defined]
+    sends = [n for st in body for n in _walk_no_defs(st)
+             if isinstance(n, ast.Call) and isinstance(n.func, ast.Attribute) and n.func.attr == "send"]
+    if len(sends) != 1:
+        raise Unsupported(f"fan-out function {fn.name}: expected exactly one `.send(...)`, found {len(sends)}")  # type: ignore[attr-defined]
+    send = sends[0]
+
+    # the chain of enclosing statements of the send
+    def chain(stmts: list[ast.stmt]) -> list[ast.stmt] | None:
+        for st in stmts:
+            if any(n is send for n in _walk_no_defs(st)):
+                inner = None
+                for fld in ("body", "orelse", "finalbody"):
+                    sub = getattr(st, fld, None)
+                    if isinstance(sub, list) and sub and isinstance(sub[0], ast.stmt):
+                        inner = inner or chain(sub)
+                for h in getattr(st, "handlers", []):
+                    inner = inner or chain(h.body)
+                for c in getattr(st, "cases", []):
+                    inner = inner or chain(c.body)
+                return [st] + (inner or [])
+        return None
+
+    ch = chain(body) or []
+    loops = [st for st in ch if isinstance(st, (ast.For, ast.AsyncFor, ast.While))]
+    transparent = all(isinstance(st, (ast.With, ast.AsyncWith, ast.For, ast.Expr, ast.Assign, ast.AnnAssign)) for st in ch)
+    one_per_sender = False
+    extractor = ""
+    if transparent and len(loops) == 2 and all(isinstance(l, ast.For) and not l.orelse for l in loops):
+        outer, inner = loops
+        if (isinstance(outer.target, ast.Tuple) and len(outer.target.elts) == 2
+                and all(isinstance(e, ast.Name) for e in outer.target.elts)
+                and isinstance(inner.target, ast.Name) and isinstance(inner.iter, ast.Name)
+                and inner.iter.id == outer.target.elts[1].id            # type: ignore[attr-defined]
+                and isinstance(send.func.value, ast.Name) and send.func.value.id == inner.target.id  # type: ignore[attr-defined]
+                and isinstance(outer.iter, (ast.Name, ast.Attribute))
+                and not _mentions(outer.iter, {msg} | tainted_params)):
+            extractor = outer.target.elts[0].id  # type: ignore[attr-defined]
+            # the send statement itself: `await s.send(x)` or `<group>.create_task(s.send(x), …)` as a plain statement
+            last = ch[-1]
+            ok_stmt = isinstance(last, ast.Expr) and _plain_path(last, send)
+            one_per_sender = bool(ok_stmt) and len(send.args) == 1 and not send.keywords
+    ts_e = val_e = ".other"
+    if one_per_sender:
+        arg = send.args[0]
+        if isinstance(arg, ast.Name):
+            arg = _single_assignments(loops[1].body).get(arg.id, arg)
+        if isinstance(arg, ast.Call) and isinstance(arg.func, ast.Name) and arg.func.id == "Sample":
+            if len(arg.args) <= len(_SAMPLE_FIELDS) and all(k.arg in _SAMPLE_FIELDS for k in arg.keywords):
+                fields: dict[str, ast.expr] = dict(zip(_SAMPLE_FIELDS, arg.args))
+                for k in arg.keywords:
+                    fields[k.arg] = k.value  # type: ignore[index]
+                ts_e = _sample_expr(fields.get("timestamp"), msg, extractor)
+                val_e = _sample_expr(fields.get("value"), msg, extractor)
+    pa = _PathAnalysis({msg} | tainted_params)
+    # the two loops over the snapshot are the expected structure, not guards: analyse around them
+    if one_per_sender:
+        expected = set(map(id, loops))
+
+        class _PA(_PathAnalysis):
+            def _guard(self, cond, bodies, contains):  # type: ignore[no-untyped-def]
+                if cond is not None and any(id(l) in expected and l.iter is cond for l in loops):
+                    return
+                super()._guard(cond, bodies, contains)
+
+        pa = _PA({msg} | tainted_params)
+    pa.fixpoint(body)
+    return {"onePerSender": one_per_sender, "ts": ts_e, "value": val_e, "guards": pa.guards}
+
+
+def _plain_path(root: ast.AST, target: ast.AST) -> bool:
+    """`target` is reached from `root` through calls / awaits / plain assignment only (no conditional evaluation)."""
+    def rec(n: ast.AST) -> bool | None:
+        if n is target:
+            return True
+        for c in ast.iter_child_nodes(n):
+            if isinstance(c, (*FuncDef, ast.Lambda)):
+                continue
+            r = rec(c)
+            if r is not None:
+                return r and isinstance(n, (ast.Expr, ast.Assign, ast.AnnAssign, ast.Await, ast.Call, ast.keyword,
+                                            ast.Attribute))
+        return None
+    return bool(rec(root))
+
+
+def _message_path(mod: ast.Module) -> tuple[dict, dict]:
+    funcs = _functions(mod)
+    found = []
+    for fname, fn in funcs.items():
+        local = _local_defs(fn)
+        for loop in (n for n in _walk_no_defs(fn) if isinstance(n, ast.AsyncFor)):
+            calls = []
+            for st in loop.body:
+                for n in _walk_no_defs(st):
+                    if isinstance(n, ast.Call):
+                        r = _resolve_callee(n, local, funcs)
+                        if r is not None and _has_send(r[0]):
+                            calls.append((n, r))
+            if calls:
+                found.append((fname, fn, loop, calls))
+    if len(found) != 1:
+        raise Unsupported("expected exactly one `async for` loop handing messages to a sending function, found "
+                          f"{[f[0] for f in found]}")
+    fname, fn, loop, calls = found[0]
+    if not isinstance(loop.target, ast.Name):
+        raise Unsupported(f"{fname}: the message loop does not bind the message to a single name")
+    msg = loop.target.id
+    body = loop.body
+
+    # -- the stream that is iterated ---------------------------------------------------------------------------------
+    fbody = _strip_doc(fn.body)  # type: ignore[attr-defined]
+    single = _single_assignments(fbody)
+    it: ast.expr = loop.iter
+    for _ in range(4):
+        if isinstance(it, ast.Name) and it.id in single:
+            it = single[it.id]
+    unfiltered = not any(isinstance(n, (ast.Call, ast.Lambda, ast.IfExp, ast.Await)) for n in ast.walk(it)) \
+        and not isinstance(it, ast.Name)
+    if isinstance(it, ast.Subscript):
+        container = _dotted(it.value)
+        stores = [n for n in ast.walk(mod) if isinstance(n, (ast.Assign, ast.AnnAssign, ast.AugAssign))
+                  for t in (n.targets if isinstance(n, ast.Assign) else [n.target])
+                  if isinstance(t, ast.Subscript) and container is not None and _dotted(t.value) == container]
+        for n in stores:
+            v = n.value
+            if not (isinstance(n, (ast.Assign, ast.AnnAssign)) and isinstance(v, ast.Await) and isinstance(v.value, ast.Call)
+                    and isinstance(v.value.func, ast.Attribute) and v.value.func.attr.endswith("_data")):
+                unfiltered = False
+        if not stores:
+            unfiltered = False
+    else:
+        unfiltered = False
+
+    # -- where the fan-out is scheduled ------------------------------------------------------------------------------
+    coro_names: set[str] = set()
+    loop_single = _single_assignments(body)
+    for name, val in loop_single.items():
+        if any(val is c for c, _ in calls):
+            coro_names.add(name)
+
+    def schedules(st: ast.stmt) -> list[ast.AST]:
+        """Nodes in `st` that start the fan-out: `create_task(<coro>)` / `ensure_future(<coro>)` / `await <coro>`."""
+        out: list[ast.AST] = []
+        for n in _walk_no_defs(st):
+            operand = None
+            if isinstance(n, ast.Await):
+                operand = n.value
+            elif isinstance(n, ast.Call) and n.args:
+                f = n.func
+                fn_name = f.attr if isinstance(f, ast.Attribute) else f.id if isinstance(f, ast.Name) else ""
+                if fn_name in ("create_task", "ensure_future", "start_soon"):
+                    operand = n.args[0]
+            if operand is None:
+                continue
+            if any(operand is c for c, _ in calls) or (isinstance(operand, ast.Name) and operand.id in coro_names):
+                out.append(n)
+        return out
+
+    top = [(st, schedules(st)) for st in body]
+    top_sched = [(st, ns) for st, ns in top if ns]
+    everywhere = [n for st in body for n in schedules(st)]
+    sched_stmt = top_sched[0][0] if top_sched else None
+    schedules_once = (len(calls) == 1 and len(everywhere) == 1 and len(top_sched) == 1
+                      and isinstance(sched_stmt, (ast.Expr, ast.Assign, ast.AnnAssign))
+                      and _plain_path(sched_stmt, everywhere[0]))
+    call, (pfn, nskip) = calls[0]
+    binding = _bind(call, pfn, nskip)
+    msg_params = [p for p, a in binding.items() if isinstance(a, ast.Name) and a.id == msg]
+    reassigned = any(msg in _targets(t)
+                     for st in body for n in _walk_no_defs(st)
+                     if isinstance(n, (ast.Assign, ast.AugAssign, ast.AnnAssign, ast.NamedExpr, ast.For, ast.AsyncFor))
+                     for t in (n.targets if isinstance(n, ast.Assign) else [n.target]))
+    passes_received = len(msg_params) == 1 and not reassigned
+    # an unconditional await after the scheduling statement, in the same iteration
+    awaits_after = False
+    if sched_stmt is not None and sched_stmt in body:
+        for st in body[body.index(sched_stmt) + 1:]:
+            if isinstance(st, (ast.Expr, ast.Assign, ast.AnnAssign)) and any(
+                    isinstance(n, ast.Await) and _plain_path(st, n) for n in _walk_no_defs(st)):
+                awaits_after = True
+
+    # -- guards of the loop body (message content incl. content kept from earlier iterations) --------------------------
+    # the assignment of the fan-out coroutine to a local and the scheduling statement do not store message content
+    skip = tuple(st for st in body if st is sched_stmt or (
+        isinstance(st, (ast.Assign, ast.AnnAssign)) and any(st.value is c for c, _ in calls)))
+    pa = _PathAnalysis({msg}, skip)
+    pa.fixpoint(body, sched_stmt)
+    # a scheduling nested in a branch is a guard that can skip (already recorded through `contains`)
+    path = {"streamUnfiltered": unfiltered, "schedulesOnce": schedules_once, "passesReceivedMessage": passes_received,
+            "awaitsAfterScheduling": awaits_after, "guards": pa.guards}
+
+    # -- the fan-out function ----------------------------------------------------------------------------------------
+    if not msg_params:
+        raise Unsupported(f"{fname}: the received message is not an argument of the fan-out function")
+    tainted_params = {p for p, a in binding.items() if p != msg_params[0] and _mentions(a, pa.taint)}
+    fan = _fanout_body(pfn, msg_params[0], tainted_params)
+    return path, fan
+
+
 def _lean_name(table: str) -> str:
     core = table.strip("_")
     return "tbl_" + "".join(c if c.isalnum() else "_" for c in core)
@@ -326,6 +769,7 @@ def generate(repo: pathlib.Path) -> str:
     mod = ast.parse((repo / SOURCES[0]).read_text())
     tables = _tables(mod)
     ext, chk = _dispatches(mod, tables)
+    path, fan = _message_path(mod)
     out = [
         "/-! Metric tables and category dispatch of `MicrogridApiSource`. -/",
         "namespace Extracted.DataSourcing",
@@ -358,5 +802,53 @@ def generate(repo: pathlib.Path) -> str:
     out.append(",\n".join(f"  ({_lean_str(c)}, {_lean_name(t)}, {_lean_str(a)})" for c, t, a in chk))
     out.append("]")
     out.append("")
+    def b(x: bool) -> str:
+        return "true" if x else "false"
+
+    def guards(gs: list[tuple[bool, bool]]) -> str:
+        return "[" + ", ".join(f"⟨{b(r)}, {b(k)}⟩" for r, k in gs) + "]"
+
+    out += [
+        "/-- A branch or early exit on the path of one message (`if` / `match` / `while` / `for` / `try` handler /",
+        "    conditional expression / `continue` / `break` / `return` / `raise`): does its condition read message content",
+        "    (of this or an earlier message), and can it skip or end the path (or does it enclose the fan-out)? -/",
+        "structure Guard where",
+        "  readsMessage : Bool",
+        "  canSkip : Bool",
+        "deriving DecidableEq, Repr",
+        "",
+        "inductive SampleExpr where",
+        "  | msgAttr (attr : String)      -- `<message>.<attr>`",
+        "  | quantityOfExtractor          -- `Quantity(<extractor of the metric>(<message>))`",
+        "  | other",
+        "deriving DecidableEq, Repr",
+        "",
+        "/-- The body of the `async for <message> in <API receiver>` loop of the streaming task. -/",
+        "structure MessagePath where",
+        "  /-- the iterated stream is the receiver handed out by the API client, unwrapped -/",
+        "  streamUnfiltered : Bool",
+        "  /-- the fan-out is scheduled exactly once, at the top level of the loop body -/",
+        "  schedulesOnce : Bool",
+        "  /-- with the received object itself as the message -/",
+        "  passesReceivedMessage : Bool",
+        "  /-- and an unconditional `await` follows in the same iteration -/",
+        "  awaitsAfterScheduling : Bool",
+        "  guards : List Guard",
+        "deriving DecidableEq, Repr",
+        "",
+        "/-- The fan-out function: `for (extractor, senders) in snapshot: for sender in senders: send(Sample(ts, value))`. -/",
+        "structure FanoutBody where",
+        "  onePerSender : Bool",
+        "  sampleTimestamp : SampleExpr",
+        "  sampleValue : SampleExpr",
+        "  guards : List Guard",
+        "deriving DecidableEq, Repr",
+        "",
+        f"def messagePath : MessagePath := ⟨{b(path['streamUnfiltered'])}, {b(path['schedulesOnce'])}, "
+        f"{b(path['passesReceivedMessage'])}, {b(path['awaitsAfterScheduling'])}, {guards(path['guards'])}⟩",
+        "",
+        f"def fanoutBody : FanoutBody := ⟨{b(fan['onePerSender'])}, {fan['ts']}, {fan['value']}, {guards(fan['guards'])}⟩",
+        "",
+    ]
     out.append("end Extracted.DataSourcing")
     return "\n".join(out) + "\n"
